@@ -21,10 +21,10 @@ TS = ("Trusted: TLC, CommunityModules Json/IOUtils, the reference semantics Ref.
       "Bounded: goal-tree depth and alphabets of spec/MC_Search.tla / MC_Live.tla, unfolding fuel, step budgets.")
 TEXT.update({
  "C05": {"ref": "DESIGN 5 C05", "technique": "TLA+ engine model (streams, step, solver loop) model-checked against a depth-first reference sequence; TLC-enumerated DFS goal trees and random programs replayed and compared position by position by TLC",
-         "level": "The engine model (Search.tla: constructors, mplus_dfs/bind_dfs, step, Solver::next) is model-checked on every DFS goal tree of the scope: at every step the emitted sequence is a prefix of the reference sequence (Ref.tla Eval), complete at exhaustion. The same trees and random cond/fresh/member/append programs inside dfs{} run on the real engine; TLC validates the recorded answer sequence position by position. The model's tick counts equal the implementation's on all enumerated trees (fidelity diagnostic).",
+         "level": "The engine model (Search.tla: constructors, mplus_dfs/bind_dfs, step, Solver::next) is model-checked on every DFS goal tree of the scope: at every step the emitted sequence is a prefix of the reference sequence (Ref.tla Eval), complete at exhaustion. Whole queries (scope QDfs) are model-checked too: the order survives state::reified and labelling (blockwise), and every engine step of the enumerated and random query programs is validated against Search.tla (stream skeletons, tick counts). The same trees and random cond/fresh/member/append programs inside dfs{} run on the real engine; TLC validates the recorded answer sequence position by position. The model's tick counts equal the implementation's on all enumerated trees (fidelity diagnostic).",
          "note": TS},
  "C06": {"ref": "DESIGN 5 C06", "technique": "TLA+ engine model model-checked for no-loss/no-invention against the reference bag; replay of enumerated BFS trees and random programs three ways, judged by TLC",
-         "level": "Every BFS goal tree of the scope is model-checked: nothing invented at any step, nothing lost at exhaustion. The trees, random programs run as written / inside dfs{} / through raw Conj nesting (implementation against implementation and against the reference), and bounded prefixes of infinite producers are executed on the real engine and validated by TLC.",
+         "level": "Every BFS goal tree of the scope is model-checked: nothing invented at any step, nothing lost at exhaustion. Invariant StepPreservesBag (refinement mapping: emitted + still owed = reference, in every state) holds on every BFS tree and on the whole-query scope QBfs. The trees, random programs run as written / inside dfs{} / through raw Conj nesting (implementation against implementation and against the reference), and bounded prefixes of infinite producers are executed on the real engine and validated by TLC.",
          "note": TS},
  "C07": {"ref": "DESIGN 5 C07", "technique": "TLC liveness checking (weak fairness) of the engine model on finite-state disjunctions, bounded productivity elsewhere; model tick counts become step budgets for the real engine",
          "level": "Fair (every branch eventually contributes need[b] answers) is checked by TLC's liveness checker on all disjunctions of the finite-state scope (never/always/finite branches, nested, under conjunction); Productive (needs met within K ticks) on loop-producers. The real conde/loop is run with a step budget of 20x the model's ticks + 1000 and must deliver every branch's needed answers before the budget is exhausted.",
@@ -91,10 +91,10 @@ TEXT.update({
          "level": "Kanren.Elab defines the documented meaning of the pattern-matching operators (one disjunct per arm and alternative, pattern names local to arm and alternative, repeated name = one variable, wildcards, matched term evaluated outside the pattern scope; matcha/matchu = committed choice over the same clauses). Random match expressions - including pattern variables that carry the name of an outer variable - are printed as Rust source, compiled against the current tree with the real macros, executed, and TLC compares the recorded answers with the reference semantics of the elaboration.",
          "note": TSURF},
  "C14": {"ref": "DESIGN 5 C14", "technique": "same programs through the macro (compiled surface source) and through the constructor API; TLC validates both against the reference semantics of the AST and against each other",
-         "level": "Random programs over the clause grammar are run twice - printed as surface syntax and compiled with the real macros, and built through the public constructors - and TLC compares both answer streams with the reference semantics (per query variable, in declaration order) and with each other; lterm!(t) is compared with the written term.",
+         "level": "Random programs over the clause grammar are run twice - printed as surface syntax and compiled with the real macros, and built through the public constructors - and TLC compares both answer streams with the reference semantics (per query variable, in declaration order) and with each other; lterm!(t) is compared with the written term. The goals the macros build take, step by step, exactly the engine steps of Search.tla built from the case AST (engine-level trace validation on both backends).",
          "note": TSURF},
  "C15": {"ref": "DESIGN 5 C15", "technique": "alpha-twin programs (shadowing names vs globally unique names) compiled and run; TLC compares twins with each other and with a reference that allocates new variables at every binder and unfolding",
-         "level": "Programs with same-named variables in nested/sibling scopes, pattern variables and recursive relations whose bodies bind fresh variables named like the caller's are compiled next to their alpha-renamed twins; TLC checks that both have the answers of the reference semantics, in which every binder and every unfolding of a relation draws new variables from the reaching state's counter.",
+         "level": "Programs with same-named variables in nested/sibling scopes, pattern variables and recursive relations whose bodies bind fresh variables named like the caller's are compiled next to their alpha-renamed twins; TLC checks that both have the answers of the reference semantics, in which every binder and every unfolding of a relation draws new variables from the reaching state's counter. One closure goal value entered two times on a path (goal form `twice`) must behave like the conjunction with a renamed copy.",
          "note": TSURF},
 })
 
